@@ -15,11 +15,9 @@ fn any_dist() -> f32 {
     d
 }
 
-fn merge_body(witness: bool) {
-    let nh: usize = kani::any();
-    let nc: usize = kani::any();
+fn merge_body(nh: usize, nc: usize, witness: bool) {
     let k: usize = kani::any();
-    kani::assume(nh <= 2 && nc <= 2 && k <= 4);
+    kani::assume(k <= 4);
     let hid: [u64; 2] = [kani::any(), kani::any()];
     let cid: [u64; 2] = [kani::any(), kani::any()];
     kani::assume(hid[0] < 4 && hid[1] < 4 && cid[0] < 4 && cid[1] < 4);
@@ -41,8 +39,8 @@ fn merge_body(witness: bool) {
     let out = TieredEngine::merge_knn_results(hot, cold, k);
     let n = out.len();
     if witness {
-        kani::cover!(n == 3, "three distinct candidates merged");
-        kani::cover!(n == 1 && nh + nc >= 3, "truncation to k = 1");
+        kani::cover!(n == nh + nc, "all candidates distinct and kept");
+        kani::cover!(n == 1 && nh + nc >= 2, "truncation to k = 1");
         std::mem::forget(out);
         return;
     }
@@ -104,14 +102,23 @@ fn merge_body(witness: bool) {
     std::mem::forget(out);
 }
 
-#[kani::proof]
-#[kani::unwind(7)]
-fn c06_o5_merge_knn_results() {
-    merge_body(false);
+// Candidate counts are concrete per row (symbolic counts: no verdict, > 9 GB after 16 min); ids, distances and k are symbolic.
+macro_rules! merge_row {
+    ($name:ident, $wname:ident, $nh:expr, $nc:expr) => {
+        #[kani::proof]
+        #[kani::unwind(7)]
+        fn $name() {
+            merge_body($nh, $nc, false);
+        }
+        #[kani::proof]
+        #[kani::unwind(7)]
+        fn $wname() {
+            merge_body($nh, $nc, true);
+        }
+    };
 }
 
-#[kani::proof]
-#[kani::unwind(7)]
-fn c06_o5_merge_knn_results__witness() {
-    merge_body(true);
-}
+merge_row!(c06_o5_merge_h1_c1, c06_o5_merge_h1_c1__witness, 1, 1);
+merge_row!(c06_o5_merge_h1_c2, c06_o5_merge_h1_c2__witness, 1, 2);
+merge_row!(c06_o5_merge_h2_c1, c06_o5_merge_h2_c1__witness, 2, 1);
+merge_row!(c06_o5_merge_h2_c2, c06_o5_merge_h2_c2__witness, 2, 2);
